@@ -188,8 +188,12 @@ def handleReExport (s : St) (ctx : Nat) (exports : List Name) (origin asName : N
         | none => false
         | some l => l.contains origin
       if listed then (s, false) else
+      -- the new module already defines that name: `reparent` calls `handleDuplicate`
+      let dup := match path s.reg ctx with
+        | some pp => dhas s.reg.all (pp ++ [asName])
+        | none => true
       match reparent s.reg ob ctx asName with
-      | .ok r => ({ s with reg := r }, true)
+      | .ok r => ({ s with reg := r, bad := s.bad || dup }, true)
       | .error _ => ({ s with bad := true }, false)
 
 /-- names a star import takes from `t`: `mod.all`, else the public keys of `contents` and of the
@@ -401,5 +405,224 @@ def resolveIn (s : St) (m : Nat) (cp : List Name) (name : Path) : Option Ident :
 then `scope.resolveName(name)` for the scope = module `m`, class chain `cp` -/
 def pdResolve (proj : Project) (order : List Nat) (m : Nat) (cp : List Name) (name : Path) : Option Ident :=
   resolveIn (run proj order) m cp name
+
+
+/-! ## static structure of a project; the decidable well-formedness predicate `WF` -/
+
+def modIdx (proj : Project) (p : Path) : Option Nat := proj.findIdx? (fun md => md.path == p)
+def isPkg (proj : Project) (t : Nat) : Bool := match proj[t]? with | some md => md.isPkg | none => false
+def pathOf (proj : Project) (t : Nat) : Path := match proj[t]? with | some md => md.path | none => []
+
+/-- the absolute name a relative `from` import refers to under CPython
+(`importlib._bootstrap._resolve_name`) -/
+def pyAbsName (proj : Project) (m : Nat) (level : Nat) (modname : Path) : Option Path :=
+  if level = 0 then some modname else
+  match Names.pythonRelativeBase (pathOf proj m) (isPkg proj m) level with
+  | none => none
+  | some b => some (b ++ modname)
+
+/-! ## sites -/
+
+/-- a scope or definition of the project: module index + chain of names inside the module -/
+abbrev Site := Nat × List Name
+
+def Stmt.defName : Stmt → Option Name
+  | .classDef n _ _ => some n
+  | .funcDef n => some n
+  | .assign n _ => some n
+  | _ => none
+
+/-- the body of the first `class x` statement of a body -/
+def findClass : List Stmt → Name → Option (List Stmt)
+  | [], _ => none
+  | .classDef n _ body :: rest, x => if n = x then some body else findClass rest x
+  | _ :: rest, x => findClass rest x
+
+/-- the body reached from `b` through the chain of class names -/
+def bodyAt : List Stmt → List Name → Option (List Stmt)
+  | b, [] => some b
+  | b, c :: cs => match findClass b c with | some b' => bodyAt b' cs | none => none
+
+def bodyOf (proj : Project) (m : Nat) : List Stmt := match proj[m]? with | some md => md.body | none => []
+
+def siteBody (proj : Project) (S : Site) : Option (List Stmt) :=
+  match proj[S.1]? with | some md => bodyAt md.body S.2 | none => none
+
+def sitePath (proj : Project) (S : Site) : Path := pathOf proj S.1 ++ S.2
+
+/-- static values: a module, or the object defined at a site -/
+inductive SVal | mod (m : Nat) | dfn (m : Nat) (cp : List Name)
+  deriving DecidableEq, Repr
+
+def scopeOf : SVal → Site
+  | .mod m => (m, [])
+  | .dfn m cp => (m, cp)
+
+def svalOf (S : Site) : SVal := if S.2 = [] then .mod S.1 else .dfn S.1 S.2
+
+def identSV (proj : Project) : SVal → Ident
+  | .mod m => .mod (pathOf proj m)
+  | .dfn m cp => .dfn (pathOf proj m ++ cp)
+
+/-- the site is a module of the project or a definition (class / def / assignment) in it -/
+def StaticSite (proj : Project) (S : Site) : Prop :=
+  S.1 < proj.length ∧
+  (S.2 = [] ∨ ∃ cp n b st, S.2 = cp ++ [n] ∧ siteBody proj (S.1, cp) = some b ∧ st ∈ b ∧ st.defName = some n)
+
+/-! ## names a statement can bind -/
+
+def isPublic (n : Name) : Bool := n.head? != some '_'
+
+def explicitNames : Stmt → List Name
+  | .importMod (h :: _) none => [h]
+  | .importMod [] none => []
+  | .importMod _ (some x) => [x]
+  | .importFrom _ _ n a => [a.getD n]
+  | .importStar _ _ => []
+  | .classDef n _ _ => [n]
+  | .funcDef n => [n]
+  | .assign n _ => [n]
+  | .allAssign _ => []
+
+/-- the names of every module-level `__all__ = [...]` of a body -/
+def allNames : List Stmt → List Name
+  | [] => []
+  | .allAssign l :: rest => l ++ allNames rest
+  | _ :: rest => allNames rest
+
+def childNames (proj : Project) (m : Nat) : List Name :=
+  proj.filterMap fun md =>
+    if md.path.dropLast = pathOf proj m then md.path.getLast? else none
+
+/-- the module a `from` / star import names, by CPython's rule -/
+def target (proj : Project) (m : Nat) (level : Nat) (modname : Path) : Option Nat :=
+  match pyAbsName proj m level modname with
+  | some T => modIdx proj T
+  | none => none
+
+/-- what a star import may take from `t`, given the names `g t` bound in `t`: its public names and
+whatever its `__all__` lists (over-approximation: both, whichever rule applies at run time) -/
+def exported (proj : Project) (g : Nat → List Name) (t : Nat) : List Name :=
+  let pub := (g t).filter isPublic
+  pub ++ ((allNames (bodyOf proj t)).filter (fun x => !pub.contains x)).eraseDups
+
+def stmtNames (proj : Project) (exp : Nat → List Name) (m : Nat) : Stmt → List Name
+  | .importStar lvl M => (match target proj m lvl M with | some t => exp t | none => [])
+  | st => explicitNames st
+
+/-- every name module `m` may bind at run time (its submodules, its statements, star imports
+expanded `f` levels deep) -/
+def modNames (proj : Project) : Nat → Nat → List Name
+  | 0, _ => []
+  | f+1, m => childNames proj m ++ (bodyOf proj m).flatMap (stmtNames proj (exported proj (modNames proj f)) m)
+
+/-! ## a property of every statement of every scope -/
+
+mutual
+def allStmt (P : List Name → Stmt → Bool) : List Name → Stmt → Bool
+  | cp, .classDef n bs body => P cp (.classDef n bs body) && allStmts P (cp ++ [n]) body
+  | cp, st => P cp st
+def allStmts (P : List Name → Stmt → Bool) : List Name → List Stmt → Bool
+  | _, [] => true
+  | cp, st :: rest => allStmt P cp st && allStmts P cp rest
+end
+
+def allProj (proj : Project) (P : Nat → List Name → Stmt → Bool) : Bool :=
+  (List.range proj.length).all fun m => allStmts (P m) [] (bodyOf proj m)
+
+/-! ## well-formedness -/
+
+def nodupB {α : Type} [DecidableEq α] : List α → Bool
+  | [] => true
+  | x :: xs => !xs.contains x && nodupB xs
+
+/-- module table: paths non-empty and distinct, the parent of a nested module is an earlier package -/
+def modulesOk (proj : Project) : Bool :=
+  nodupB (proj.map (·.path)) &&
+  (List.range proj.length).all fun m =>
+    let p := pathOf proj m
+    p != [] && (p.length ≤ 1 || match modIdx proj p.dropLast with
+      | some q => decide (q < m) && isPkg proj q
+      | none => false)
+
+mutual
+def defSitesStmt (m : Nat) : List Name → Stmt → List Site
+  | cp, .classDef n _ body => (m, cp ++ [n]) :: defSites m (cp ++ [n]) body
+  | cp, .funcDef n => [(m, cp ++ [n])]
+  | cp, .assign n _ => [(m, cp ++ [n])]
+  | _, _ => []
+def defSites (m : Nat) : List Name → List Stmt → List Site
+  | _, [] => []
+  | cp, st :: rest => defSitesStmt m cp st ++ defSites m cp rest
+end
+
+/-- modules and definitions -/
+def entities (proj : Project) : List Site :=
+  (List.range proj.length).flatMap fun m => (m, []) :: defSites m [] (bodyOf proj m)
+
+/-- no two documented things share a qualified name -/
+def pathsUnique (proj : Project) : Bool := nodupB ((entities proj).map (sitePath proj))
+
+def rankOf (rank : List Nat) (m : Nat) : Nat := rank.getD m 0
+
+def stmtTargets (proj : Project) (m : Nat) : Stmt → List (Option Nat)
+  | .importMod t _ => [modIdx proj t]
+  | .importFrom lvl M _ _ => [target proj m lvl M]
+  | .importStar lvl M => [target proj m lvl M]
+  | _ => []
+
+/-- every import names a module of the project, of smaller rank (acyclic) -/
+def importsOk (proj : Project) (rank : List Nat) : Bool :=
+  allProj proj fun m _ st => (stmtTargets proj m st).all fun t =>
+    match t with | some t => decide (rankOf rank t < rankOf rank m) | none => false
+
+def noBases (proj : Project) : Bool :=
+  allProj proj fun _ _ st => match st with | .classDef _ bs _ => bs.isEmpty | _ => true
+
+def noStarInClass (proj : Project) : Bool :=
+  allProj proj fun _ cp st => match st with | .importStar _ _ => cp.isEmpty | _ => true
+
+/-- a module that has an `__all__` lists only what it defines itself: no star import, and no name
+bound by a `from` import is listed (`_handleReExport` never moves anything) -/
+def noReexport (proj : Project) : Bool :=
+  allProj proj fun m cp st =>
+    !cp.isEmpty || (match st with
+      | .importStar _ _ => (allNames (bodyOf proj m)).isEmpty
+      | .importFrom _ _ n a => !(allNames (bodyOf proj m)).contains (a.getD n)
+      | _ => true)
+
+def isRootName (proj : Project) (x : Name) : Bool := (modIdx proj [x]).isSome
+
+/-- the name of a root module is bound to nothing but that module -/
+def rootsReserved (proj : Project) : Bool :=
+  (allProj proj fun _ _ st =>
+    (explicitNames st).all fun x => !isRootName proj x || (match st with
+      | .importMod (h :: _) none => h == x
+      | .importMod [h] (some a) => h == x && a == x
+      | _ => false)) &&
+  (List.range proj.length).all fun m => (childNames proj m).all fun x => !isRootName proj x
+
+mutual
+def classNodupStmt : Stmt → Bool
+  | .classDef _ _ body => nodupB (body.flatMap explicitNames) && classNodupStmts body
+  | _ => true
+def classNodupStmts : List Stmt → Bool
+  | [] => true
+  | st :: rest => classNodupStmt st && classNodupStmts rest
+end
+
+/-- each name is bound once per scope -/
+def boundOnce (proj : Project) (rank : List Nat) : Bool :=
+  (List.range proj.length).all fun m =>
+    nodupB (modNames proj (rankOf rank m + 1) m) && classNodupStmts (bodyOf proj m)
+
+/-- **WF**: the property's quantifier — an acyclic multi-package project (`rank` is a topological
+index), qualified names of definitions unique, each name bound once per scope — plus the
+restrictions under which the theorems are proved: imports stay inside the project, no base
+classes, no `__all__` re-exports, root names reserved for the root modules. -/
+def WF (proj : Project) (rank : List Nat) : Bool :=
+  modulesOk proj && pathsUnique proj && importsOk proj rank && boundOnce proj rank &&
+  noBases proj && noStarInClass proj && noReexport proj && rootsReserved proj
+
 
 end Imports
